@@ -70,6 +70,9 @@ def _task(prop, verif_seed, index, tier):
                "cycles": res.get("cycles", 0), "sim_ps": res.get("sim_ps", 0),
                "digest": res.get("digest", ""), "nontrivial": bool(res.get("nontrivial", True)),
                "summary": res.get("summary", {}), "wall": res["wall"]}
+        for k_ in ("evaluations", "distinct_keys"):
+            if k_ in res:
+                out[k_] = res[k_]
         if out["violations"] or index < 3:
             out["scenario"] = scn
         return out
@@ -256,9 +259,16 @@ def write_evidence(mod, tier, seed, t0, results, violations, extra=None):
             samples.append({"seed": r["seed"], "summary": r.get("summary", {}), "digest": r.get("digest"),
                             "scenario_excerpt": _excerpt(r["scenario"])})
     zero = sorted(k for k, v in stats.items() if v == 0)
+    nevals = len(results)
+    ndist = len(digests)
+    if results and all("evaluations" in r for r in results):
+        # checks whose unit of evaluation is finer than a run (fault enumeration): counts measured by the run itself
+        nevals = sum(r["evaluations"] for r in results)
+        ndist = sum(r.get("distinct_keys", 0) for r in results)
     cov = {
-        "evaluations": len(results),
-        "distinct_nontrivial": len(digests),
+        "evaluations": nevals,
+        "distinct_nontrivial": ndist,
+        "runs": len(results),
         "rule": mod.RULE,
         "samples": samples or [{"note": "no sample captured"}],
         "simulated_cycles": cycles,
